@@ -31,7 +31,7 @@ PROPS = {
     ),
     'C06': dict(
         title='Arrays are independent values with queue and dictionary behaviour',
-        verus=['val_arrays', 'produce', 'val_ops'], kani=['c06_'],
+        verus=['val_arrays', 'produce', 'val_ops', 'exec_glue'], kani=['c06_'],
         technique=V + ': val.rs array/queue/dictionary functions against the mathematical content (Seq / Map view), '
                       'auto-extension, key kinds, &mut frame conditions (Rc::make_mut contract)',
     ),
